@@ -244,6 +244,7 @@ static void print_tail(CDashMemo *memo) {
     memo->printer(memo->stream,
                   "      </Results>\n"
                   "    </Test>\n");
+    fflush(memo->stream);
 }
 
 static void cdash_show_fail(TestReporter *reporter, const char *file, int line, const char *message, va_list arguments) {
